@@ -332,7 +332,7 @@ func checkSideArrays(p *Program, r *Report, reach map[*ssa.Function]bool) {
 	pairs := discoverSidePairs(p, reach)
 	for _, pr := range pairs {
 		st := pr.t.Underlying().(*types.Struct)
-		n1, n2 := st.Field(pr.f1).Name(), st.Field(pr.f2).Name()
+		n1, n2 := fname(st.Field(pr.f1)), fname(st.Field(pr.f2))
 		key := fmt.Sprintf("%s.%s / %s.%s stay the same length", pr.t.Obj().Name(), n1, pr.t.Obj().Name(), n2)
 		bad, badPos := "", ""
 		nStores := 0
